@@ -15,6 +15,16 @@ S2  scenarios: (a) one per transition of a small bounded instance of the same sp
     models controller reuse explicitly (Rebuild) and names the failure of a too coarse equality (NoStaleVariant, spec
     mutants coarseReuse / coarseUnchanged); scenario families (d) transitions of spec instances over {R1, R1a, R1b},
     (e) fixed reload patterns old -> near-equal new for EVERY (module, base rule, field), (f) random sequences.
+    PARAMETER SWEEP (g): the statement quantifies over EVERY rule the module's validity check accepts, whatever its numbers.
+    Tokens "P1".."P3" stand for RULE RECORDS (the numeric fields of the module's rule type) drawn from boundary-rich ranges
+    (flow statistic intervals 0..20000 that are / are not multiples or divisors of 500 / 1000 / 10000, thresholds 0 /
+    fractional / large, warm-up, queueing, memory water marks; breaker intervals x bucket counts that divide or not, retry
+    timeouts, minimum request amounts, ratios and counts; hotspot durations, bursts, capacities; isolation thresholds;
+    system trigger counts; outlier ejection percentages).  RuleStore!ValidRule - the transcription of each module's
+    IsValidRule - says which records are valid rules (the driver never asks the library); a valid one must be reported
+    and ENFORCED (probe traffic derived from its numbers, every request judged by RuleStore!Verdict / Trips / Ejects), an
+    invalid one must be absent.  Design level: the controller of every valid rule must be buildable (sample count of the
+    flow statistic, bucket count of a breaker; EveryValidRuleBuildable, spec mutants naiveSampleCount / keepBucketCount).
 S3  harness/cmd/c13 replays them on the real rule managers (fresh rule objects per call, panics recovered) and records
     the returned (changed, err, panicked), GetRules()/GetRulesOfResource() and the answers of probing requests.
 S4  RuleStore_Trace.tla (TLC) judges every recorded observable with the operators of RuleStore.tla.
@@ -29,7 +39,7 @@ NVAR = dict(flow=16, isolation=3, hotspot=9, circuitbreaker=6, system=4, outlier
 VALID = ['R1', 'R2', 'R3']
 INVALID = ['I1', 'I2', 'I3']
 NEAR = {}        # module -> base token -> [names of the near-equal variants], read from the driver (c13 -describe)
-INVS = 'TypeOK EnforcedIsLatestValid NothingElseEnforced OnlyValidEnforced ReportedIsEnforced NoStaleVariant IdenticalReloadUnchanged'
+INVS = 'TypeOK EnforcedIsLatestValid NothingElseEnforced OnlyValidEnforced ReportedIsEnforced NoStaleVariant IdenticalReloadUnchanged EveryValidRuleBuildable'
 
 
 def is_near(tok):
@@ -225,6 +235,159 @@ def near_patterns(mod, tr0):
     return out
 
 
+# ---------------------------------------------------------------------------------------------- parameter sweep
+PTOK = ['P1', 'P2', 'P3']
+INTERVALS = [0, 1, 2, 3, 7, 100, 250, 333, 499, 500, 501, 700, 999, 1000, 1001, 1200, 1300, 1500, 1600, 1700, 1900, 2000, 2100, 2200, 2300,
+             2500, 2600, 2700, 3000, 3100, 3300, 4000, 4700, 5000, 6000, 7500, 9000, 9500, 9999, 10000, 10001, 12000, 15000, 19999, 20000]
+
+
+def pick(rng, usual, rare=(), p_rare=0.04):
+    return rng.choice(rare) if rare and rng.random() < p_rare else rng.choice(usual)
+
+
+def sweep_rec(rng, mod):
+    """one rule record of module mod (spec/RuleStore.tla, RULE PARAMETERS): every numeric field from a boundary-rich range;
+    each way of being invalid is individually rare so that most records are valid rules - WHICH are is the spec's business"""
+    nores = rng.random() < 0.03
+    if mod == 'flow':
+        tcs = pick(rng, [0, 0, 0, 0, 1, 1, 2], [-1])
+        rel = pick(rng, [0, 0, 0, 0, 0, 1], [2, -1])
+        return dict(nores=nores, tcs=tcs, cb=pick(rng, [0, 0, 1], [-1]),
+                    thr=pick(rng, [0, 1, 500, 999, 1000, 1001, 1500, 2000, 2500, 3000, 4000, 5000, 7300, 10000, 12500, 100000, 1000000000], [-1, -1000]),
+                    rel=rel, ref=(rng.random() < 0.9) if rel == 1 else (rng.random() < 0.1),
+                    intv=rng.choice(INTERVALS) if rng.random() < 0.5 else rng.randint(1, 20000),
+                    wup=pick(rng, [1, 2, 10, 60], [0], 0.08 if tcs == 1 else 0.3), wcf=pick(rng, [0, 2, 3, 5], [1], 0.08 if tcs == 1 else 0.2),
+                    mq=rng.choice([0, 0, 1, 10, 100, 333, 334, 500, 1000, 5000]),
+                    lomem=pick(rng, [2, 5, 10, 100], [0, -1], 0.06 if tcs == 2 else 0.5), himem=pick(rng, [1, 1, 3], [0, 100], 0.06 if tcs == 2 else 0.5),
+                    lowm=pick(rng, [1, 1024, 1 << 20], [0, 1 << 27], 0.06 if tcs == 2 else 0.5), hiwm=pick(rng, [2048, 1 << 21, 1 << 26], [0, 1], 0.06 if tcs == 2 else 0.5))
+    if mod == 'isolation':
+        return dict(nores=nores, mt=pick(rng, [0], [1, 2, -1], 0.06), thr=pick(rng, [1, 1, 2, 3, 4, 5, 7, 10, 100, 65535, 1000000], [0], 0.07))
+    if mod == 'hotspot':
+        mt = pick(rng, [1, 1, 1, 0], [-1])              # 1 = QPS, 0 = Concurrency
+        return dict(nores=nores, mt=mt, cb=pick(rng, [0, 0, 1], [-1]), idx=pick(rng, [0, 0, 0, -1, -2], [1, 2], 0.05), key=rng.random() < 0.95,
+                    thr=pick(rng, [0, 1, 1, 2, 3, 5, 10, 100, 1000], [-1]), burst=pick(rng, [0, 0, 0, 1, 2, 5, 100], [-1]),
+                    dur=pick(rng, [1, 1, 2, 10, 60], [0, -1], 0.05 if mt == 1 else 0.3), cap=rng.choice([0, 0, 1, 2, 100, 20000, -1]),
+                    mq=pick(rng, [0, 0, 1, 5, 100, 500, 1000, 2000], [-1]))
+    if mod in ('circuitbreaker', 'outlier'):
+        strat = rng.choice([0, 1, 2])
+        if strat == 2:
+            thr = pick(rng, [1, 500, 1000, 1001, 1500, 2000, 2500, 3000, 3500, 5000, 10000, 1000000000], [-1, -1000])
+        else:
+            thr = pick(rng, [1, 100, 250, 333, 500, 501, 667, 999, 1000], [1001, 1500, -1], 0.06)
+        r = dict(nores=nores, strat=strat, retry=pick(rng, [1, 10, 999, 1000, 1001, 5000, 60000], [0]), minreq=rng.choice([0, 1, 1, 2, 3, 5, 10]),
+                 intv=pick(rng, [1, 7, 100, 999, 1000, 1001, 1500, 2000, 3000, 10000, 20000], [0]),
+                 bc=rng.choice([0, 0, 1, 2, 3, 4, 7, 10, 16, 1000, 2000]), maxrt=rng.choice([0, 10, 99, 100, 101, 1000]), thr=thr,
+                 probenum=rng.choice([0, 0, 1, 2, 3]))
+        if mod == 'outlier':
+            r.update(nilrule=rng.random() < 0.03, pct=pick(rng, [0, 1, 499, 500, 501, 999, 1000, 1000, 1000], [-1, 1001, 1500], 0.06))
+        return r
+    if mod == 'system':
+        mt = pick(rng, [0, 1, 2, 3, 4], [5, 6, 99], 0.06)
+        return dict(mt=mt, strat=rng.choice([-1, -1, -1, 0, 1]),
+                    thr=pick(rng, [0, 1, 500, 999, 1000], [1001, 1500, -1], 0.1) if mt == 4 else pick(rng, [0, 1, 500, 1000, 1500, 2000, 2500, 3000, 5000, 7000], [-1, -1000]))
+    raise ValueError(mod)
+
+
+def sweep_probe_candidates(rng, mod, tok, r):
+    """probe traffic whose shape follows the numbers of record r: just below / at / just above what a rule with these numbers
+    admits (the generator proposes traffic; what each request must be answered is decided by the spec)"""
+    env = dict(load=0, cpu=0, mem=0)
+
+    def req(bs, **e):
+        return dict(kind='req', tok=tok, env=dict(env, **e), bs=[max(1, min(int(b), 1000001)) for b in bs])
+
+    def around(T):
+        T = max(T, 0)
+        c = [[T + 1], [1, 1], [max(T, 1)]]
+        if T >= 1:
+            c += [[T, 1], [T, 1], [T - 1, 1, 1] if T >= 2 else [1, 1, 1]]
+        if T <= 6:
+            c += [[1] * (T + 1)]
+        return c
+    if mod == 'flow':
+        if r['tcs'] == 2:
+            mems = [0, r['lowm'], r['lowm'] + 1, max(r['hiwm'] - 1, 0), r['hiwm'], r['hiwm'] + 1]
+            return [req(bs, mem=max(m, 0)) for m in mems for T in (r['lomem'], r['himem']) for bs in around(T)]
+        out = [req(bs) for bs in around(r['thr'] // 1000)]
+        if r['tcs'] == 1:
+            cold = r['thr'] // 1000 // (r['wcf'] if r['wcf'] > 1 else 3)
+            out += [req(bs) for bs in around(cold - 1)]
+        return out
+    if mod == 'isolation':
+        return [req(bs) for bs in around(r['thr'])]
+    if mod == 'hotspot':
+        return [req(bs) for bs in around(r['thr'] + max(r['burst'], 0) if r['mt'] == 1 and r['cb'] == 0 else r['thr'])] + [req([1, 1, 1])]
+    if mod == 'system':
+        k = max(r['thr'], 0) // 1000
+        seqs = [[1] * (min(k, 7) + 1), [1] * max(min(k, 7), 1), [max(k, 1), 1], [1, 1]]
+        envs = [dict(), dict(load=max(r['thr'], 0)), dict(load=max(r['thr'], 0) + 1), dict(cpu=max(r['thr'], 0)), dict(cpu=max(r['thr'], 0) + 1),
+                dict(load=10000, cpu=2000)]
+        return [req(bs, **e) for bs in seqs for e in envs]
+    # breakers: n requests, the last `fails' fail, rt ms each
+    need = -(-max(r['thr'], 0) // 1000)
+    ns = {max(1, r['minreq'] - 1), max(1, r['minreq']), r['minreq'] + 1, need, need + 1, 2, 4}
+    out = []
+    for n in ns:
+        if not 1 <= n <= 14:
+            continue
+        if r['strat'] == 2:
+            fs = {n, min(n, need), min(n, max(need - 1, 0))}
+        else:
+            f = -(-max(r['thr'], 0) * n // 1000)          # the smallest number of failures that reaches the ratio
+            fs = {n, min(n, f), min(n, max(f - 1, 0)), 0}
+        for f in fs:
+            for rt in {0, r['maxrt'], r['maxrt'] + 1}:
+                out.append(dict(kind='eject' if mod == 'outlier' else 'trip', n=n, fails=f, rt=rt))
+    return out
+
+
+def sweep_scenario(rng, mod, tr):
+    """a scenario over parametric tokens: records P1..P3, 2..4 loads / clears over lists of them (and nil elements) on both
+    load paths - first loads, identical reloads, a working rule replaced per resource, clears - and up to 5 probes"""
+    params = {t: sweep_rec(rng, mod) for t in PTOK}
+    ress = ['sys'] if mod == 'system' else ['r1', 'r2']
+    per_res = mod != 'system'
+    single = mod == 'outlier'
+    ops, prev = [], None
+    for _ in range(rng.randint(2, 4)):
+        x = rng.random()
+        if prev is not None and x < 0.2:
+            o = json.loads(json.dumps(prev))
+        else:
+            y = rng.random()
+            kind = ('load*' if y < 0.9 else 'clear*') if not per_res else ('load*' if y < 0.4 else 'loadr' if y < 0.85 else 'clear*' if y < 0.92 else 'clearr')
+            scope = '*' if kind.endswith('*') else rng.choice(ress)
+            lst = []
+            if kind.startswith('load'):
+                n = 1 if single and scope != '*' else rng.choice([1, 1, 2, 2, 3])
+                for _ in range(n):
+                    if rng.random() < 0.06 and not (single and scope != '*'):
+                        lst.append(['Nil', '-'])
+                    else:
+                        lst.append([rng.choice(PTOK), scope if scope != '*' else rng.choice(ress)])
+                if single and scope == '*':
+                    seen, l2 = set(), []
+                    for t, r in lst:
+                        if t == 'Nil' or r not in seen:
+                            l2.append([t, r])
+                        if t != 'Nil':
+                            seen.add(r)
+                    lst = l2
+            o = dict(op='load' if kind.startswith('load') else 'clear', scope=scope, list=lst)
+        ops.append(o)
+        prev = o if o['op'] == 'load' else None
+    used = sorted({t for o in ops for t, _ in o['list'] if t != 'Nil'})
+    probes = []
+    # a breaker with threshold 0 trips on every completion (also on the good ones of the recovery): such a scenario is
+    # judged through the getters only
+    if not (mod in ('circuitbreaker', 'outlier') and any(params[t]['thr'] == 0 for t in PTOK)):
+        for t in used:
+            c = sweep_probe_candidates(rng, mod, t, params[t])
+            probes += rng.sample(c, min(2, len(c)))
+        probes = rng.sample(probes, min(5, len(probes)))
+    return [dict(op='new', tr=tr, mod=mod, var={}, params=params, sweep=probes)] + ops
+
+
 def near_reloads(s):
     """{(base, delta index)} of the variants that take part in a reload old -> near-equal new (same resource, same base
     token, different rule) in scenario s"""
@@ -303,6 +466,8 @@ def signature(ev, exp, scn=None):
         if mod == 'outlier' and scn and any(t in scn[0]['var'] and scn[0]['var'][t] % NVAR['outlier'] == 7 for t in toks):
             return ('C13/outlier/nil-embedded-rule/panic', 'outlier: LoadRules of a rule whose embedded circuit breaker rule is nil panics')
         return ('C13/%s/%s/panic' % (mod, path), '%s: %s panics on %s' % (mod, path, ev['list']))
+    if scn and scn[0].get('params'):
+        return sweep_signature(ev, exp, scn, path)
     if why == ['unchanged']:
         if mod == 'flow' and 'R2' in toks:
             return ('C13/flow/warmup-cold-factor-defaulted-in-callers-rule/identical-reload-reports-changed',
@@ -358,6 +523,44 @@ def signature(ev, exp, scn=None):
             '%s: after %s %s of %s the rules in force / reported differ from the valid rules of the latest load %s' % (mod, path, ev['scope'], ev['list'], json.dumps(want)))
 
 
+def sweep_signature(ev, exp, scn, path):
+    """a mismatch in a parameter-sweep scenario: which rule RECORD is concerned and what the spec demands of it"""
+    mod, why, want, params = exp['mod'], exp['why'], exp['want'], scn[0]['params']
+    recs = lambda toks: '; '.join('%s = %s' % (t, json.dumps(params[t], sort_keys=True)) for t in sorted(set(toks)) if t in params)
+    if 'unchanged' in why:
+        return ('C13/%s/%s/sweep/identical-reload-reports-changed' % (mod, path),
+                '%s: an identical reload of %s reports changed / an error [%s]' % (mod, ev['list'], recs(t for t, _ in ev['list'])))
+    missing, extra = [], []
+    for got_of, bad in ((ev.get('rep', {}), exp['badrep']), (ev['all'], exp['badall'])):
+        for r in bad:
+            rest = [list(x) for x in got_of[r]]
+            for x in want.get(r, []):
+                if list(x) in rest:
+                    rest.remove(list(x))
+                elif list(x) not in missing:
+                    missing.append(list(x))
+            extra += [x for x in rest if x not in extra]
+    if missing:
+        return ('C13/%s/%s/sweep/valid-rule-dropped' % (mod, path),
+                '%s: after %s %s of %s the rule(s) %s - VALID by the module\'s own validity predicate (RuleStore!ValidRule) and part of the latest load - are '
+                'not reported by the getters (got %s)%s [%s]' % (mod, path, ev['scope'], ev['list'], missing, json.dumps(ev.get('rep', ev['all'])),
+                                                               ' and not enforced either' if exp['badp'] else '', recs(t for t, _ in missing)))
+    if extra:
+        return ('C13/%s/%s/sweep/rule-reported-that-is-not-in-force' % (mod, path),
+                '%s: after %s %s of %s the getters report %s, which the valid rules of the latest load %s do not contain [%s]' % (
+                    mod, path, ev['scope'], ev['list'], extra, json.dumps(want), recs(t for t, _ in extra)))
+    if exp['badrep'] or exp['badall']:
+        return ('C13/%s/%s/sweep/reported-in-another-order' % (mod, path),
+                '%s: after %s %s of %s the getters report %s, the valid rules of the latest load are %s (same rules, other order) [%s]' % (
+                    mod, path, ev['scope'], ev['list'], json.dumps(ev.get('rep', ev['all'])), json.dumps(want), recs(t for t, _ in ev['list'])))
+    p = exp['badp'][0] if exp['badp'] else {}
+    inforce = [t for t, _ in want.get(p.get('res'), [])]
+    return ('C13/%s/%s/sweep/not-enforced-as-the-parameters-demand' % (mod, path),
+            '%s: after %s %s of %s the rules in force on %s are %s and the getters report them, but probe traffic is not answered as rules with '
+            'exactly these parameters must answer it (RuleStore!Verdict / Trips / Ejects): %s [%s]' % (
+                mod, path, ev['scope'], ev['list'], p.get('res'), inforce, json.dumps(p, sort_keys=True), recs(inforce + [t for t, _ in ev['list']])))
+
+
 def handle_mismatches(c, drv, scns, mism, tag, groups):
     """group by signature; the shortest scenario of each group is confirmed twice and reported once"""
     by_tr = {s[0]['tr']: s for s in scns}
@@ -382,6 +585,11 @@ def candidates(s):
             out.append(s[:i] + [o] + s[i + 1:])
             if i + 1 < len(s) and s[i + 1] == s[i]:      # identical reload: shrink both alike
                 out.append(s[:i] + [o, dict(o)] + s[i + 2:])
+    if s[0].get('params'):      # parameter sweep: records of tokens that are never loaded, and the probes derived from them
+        used = {t for o in s[1:] for t, _ in o['list']}
+        if set(s[0]['params']) - used:
+            out.append([dict(s[0], params={t: r for t, r in s[0]['params'].items() if t in used},
+                             sweep=[p for p in s[0]['sweep'] if p.get('tok', next(iter(used), None)) in used])] + s[1:])
     return out
 
 
@@ -486,6 +694,48 @@ def binding_selftest(c, tp, bad_trs):
     c.log('binding self-test: %d corrupted traces (%s), all rejected by RuleStore_Trace' % (len(want), kinds))
 
 
+def binding_selftest_sweep(c, tp, bad_trs):
+    """parameter-sweep traces: corrupt one recorded answer (a request answered "pass" becomes a refusal by a rule that does
+    not exist, an observed request after the completions likewise, an ejection flag is flipped) or one getter result in each
+    of the first good traces: every one must be rejected"""
+    lines = [json.loads(l) for l in open(tp)]
+    good = [e['tr'] for e in lines if e['op'] == 'new' and e['tr'] not in bad_trs]
+    chosen = set(good[::max(1, len(good) // 60)][:60])       # spread over the modules (the trace is ordered by module)
+    out, want, cur, done, kinds = [], set(), None, True, {}
+    for e in lines:
+        if e['op'] == 'new':
+            cur = e['tr']
+            done = cur not in chosen
+        elif not done and not e['panic']:
+            k = c.rng.choice(['req', 'req', 'all'])
+            ps = [p for p in e['probes'] if (p['kind'] == 'req' and any(q['by'] == 'pass' for q in p['reqs'])) or p['kind'] != 'req']
+            if k == 'req' and ps:
+                p = c.rng.choice(ps)
+                if p['kind'] == 'req':
+                    c.rng.choice([q for q in p['reqs'] if q['by'] == 'pass'])['by'] = 'P9'
+                elif p['kind'] == 'trip':
+                    p['obs'][0] = 'P9'
+                else:
+                    p['hit'] = not p['hit']
+                k = p['kind']
+            else:
+                r = c.rng.choice(sorted(e['all']))
+                e['all'][r] = e['all'][r][1:] if e['all'][r] else [['P1', r]]
+                k = 'all'
+            kinds[k] = kinds.get(k, 0) + 1
+            done = True
+            want.add(cur)
+        out.append(e)
+    cp = os.path.join(c.scratch, 'corrupt-sweep.ndjson')
+    write_ndjson(cp, out)
+    mism, consumed, r = c.validate('RuleStore_Trace', cp, len(out))
+    got = {m[0] for m in mism} - set(bad_trs)
+    if got != want or not want:
+        raise MachineryError('binding self-test (parameter sweep) failed: corrupted traces %s, rejected %s' % (sorted(want), sorted(got)))
+    c.cov['binding_selftest_sweep'] = '%d corrupted traces (%s), all rejected' % (len(want), kinds)
+    c.log('binding self-test (parameter sweep): %d corrupted traces (%s), all rejected by RuleStore_Trace' % (len(want), kinds))
+
+
 # ---------------------------------------------------------------------------------------------- the check
 def check(c, tier, replay):
     drv = c.build('c13')
@@ -520,6 +770,15 @@ def check(c, tier, replay):
         r = c.model_check('RuleStore_MC', cfg_text=mc_cfg(descs, ress, toks, ml), workers=8, timeout=3000)
         if not r.completed:
             c.inconclusive.append('RuleStore.tla: %s violated - the spec no longer describes a correct design' % r.violated)
+    # parameter sweep: descriptors whose token P1 ranges over boundary-rich rule records (statistic intervals / bucket counts that
+    # divide or not, invalid values); validity from RuleStore!ValidRule, every valid rule must be buildable and in force
+    r = c.model_check('RuleStore_MC', cfg_text=mc_cfg('MCSweepFull' if thorough else 'MCSweep', ['r1'], ['P1', 'P2'], 2), workers=8, timeout=3000)
+    if not r.completed:
+        c.inconclusive.append('RuleStore.tla (parameter sweep): %s violated - the spec no longer describes a correct design' % r.violated)
+    # ... and the whole range of intervals 0..20000 x strategies / intervals x bucket counts (state-independent, on a tiny instance)
+    r = c.model_check('RuleStore_MC', cfg_text=mc_cfg('MCDescs1', ['r1'], ['R1'], 1, invs='BuildableSweep'), workers=2, timeout=900)
+    if not r.completed:
+        c.inconclusive.append('RuleStore.tla: BuildableSweep does not hold (%s)' % (r.violated or r.error))
     c.cov['exhaustive'] = True
     # vacuity: every deliberately broken variant of the design must violate an invariant
     caught = {}
@@ -530,6 +789,14 @@ def check(c, tier, replay):
                   workers=4, timeout=600, count=False)
         if not r.violated:
             raise MachineryError('vacuity self-test: spec mutant %s is not caught by TLC (%s)' % (mut, r.error))
+        caught[mut] = r.violated
+    # a controller derivation that fails for some VALID rules (naiveSampleCount = seeded change C13-e: sample count = interval /
+    # bucket length without the "is a multiple" guard; keepBucketCount: a breaker bucket count that does not divide the interval
+    # is kept) drops those rules: the store-level invariant alone must see it
+    for mut in ['naiveSampleCount', 'keepBucketCount']:
+        r = c.tlc('RuleStore_MC', cfg_text=mc_cfg('MCSweep', ['r1'], ['P1', 'P2'], 1, mutant=mut, invs='EnforcedIsLatestValid'), workers=4, timeout=600, count=False)
+        if r.violated != 'EnforcedIsLatestValid':
+            raise MachineryError('vacuity self-test: spec mutant %s is not caught by TLC (%s)' % (mut, r.error or r.violated))
         caught[mut] = r.violated
     c.cov['spec_mutants_caught'] = caught
     c.log('vacuity self-test: spec mutants caught: %s' % caught)
@@ -612,20 +879,43 @@ def check(c, tier, replay):
         for _ in range(60 if not thorough else 600):
             tr += 1
             nrnd.append(random_scenario(c.rng, mod, tr, near=True))
+    # (g) parameter sweep: rule records drawn from boundary-rich ranges, judged by RuleStore!ValidRule / Verdict / Trips / Ejects
+    swp = []
+    for mod in MODS:
+        for _ in range(170 if not thorough else 2500):
+            tr += 1
+            swp.append(sweep_scenario(c.rng, mod, tr))
     # S3 + S4 ----------------------------------------------------------------------------
-    first = True
-    for tag, group in (('tlc', scns), ('sim', sim), ('rnd', rnd), ('pat', pat), ('ntlc', nscns), ('npat', npat), ('nrnd', nrnd)):
+    first, first_sweep = True, True
+    for tag, group in (('tlc', scns), ('sim', sim), ('rnd', rnd), ('pat', pat), ('ntlc', nscns), ('npat', npat), ('nrnd', nrnd), ('sweep', swp)):
         for i in range(0, len(group), 1500):
             part = group[i:i + 1500]
             mism, tp = run_and_validate(c, drv, part, '%s%d' % (tag, i))
             if first:
                 binding_selftest(c, tp, {m[0] for m in mism})
                 first = False
+            if tag == 'sweep' and first_sweep:
+                binding_selftest_sweep(c, tp, {m[0] for m in mism})
+                first_sweep = False
             c.cov['conformance_mismatches'] += len(mism)
             handle_mismatches(c, drv, part, mism, tag, groups)
     conclude(c, drv, groups)
     allscn = scns + sim + rnd + pat + nscns + npat + nrnd
     c.cov['distinct_nontrivial'] = len({json.dumps(s[1:], sort_keys=True) + s[0]['mod'] for s in allscn if nontrivial(s)})
+    # parameter sweep: what was drawn (a record counts when its token is loaded at least once)
+    loaded = [(s[0]['mod'], s[0]['params'][t]) for s in swp for t in sorted({t for o in s[1:] for t, _ in o['list'] if t in s[0]['params']})]
+    fi = sorted({r['intv'] for m, r in loaded if m == 'flow' and (r['cb'] == 0 or r['tcs'] == 1)})
+    c.cov['parameter_sweep'] = dict(
+        scenarios=len(swp), rule_records_loaded=len(loaded), distinct_rule_records=len({m + json.dumps(r, sort_keys=True) for m, r in loaded}),
+        probes=sum(len(s[0]['sweep']) for s in swp), per_module={m: sum(1 for x, _ in loaded if x == m) for m in MODS},
+        flow_stat_intervals=dict(distinct=len(fi), not_multiple_of_500=sum(1 for i in fi if i % 500), divisor_of_10000=sum(1 for i in fi if i and 10000 % i == 0),
+                                 between_500_and_10000_not_multiple=sum(1 for i in fi if 500 < i < 10000 and i % 500), above_10000=sum(1 for i in fi if i > 10000)),
+        breaker_interval_bucket_pairs=len({(r['intv'], r['bc']) for m, r in loaded if m in ('circuitbreaker', 'outlier')}),
+        breaker_buckets_not_dividing=len({(r['intv'], r['bc']) for m, r in loaded if m in ('circuitbreaker', 'outlier') and r['bc'] and r['intv'] % r['bc']}))
+    if c.cov['parameter_sweep']['flow_stat_intervals']['between_500_and_10000_not_multiple'] < 20 or any(v < 100 for v in c.cov['parameter_sweep']['per_module'].values()):
+        c.inconclusive.append('parameter sweep too thin: %s' % c.cov['parameter_sweep'])
+    c.cov['distinct_nontrivial'] += len({json.dumps(s, sort_keys=True) for s in swp})
+    allscn = allscn + swp
     seen = set()
     for s in allscn:
         for o in s[1:]:
@@ -649,13 +939,14 @@ def check(c, tier, replay):
     c.cov['per_module'] = {m: sum(1 for s in allscn if s[0]['mod'] == m) for m in MODS}
     c.cov['rule'] = ('scenarios = one per transition of the bounded RuleStore spec per module (%d) + TLC random simulation (%d) + seeded '
                      'random sequences (%d) + %d fixed patterns + near-equal variants: %d reload patterns (one group per module, base rule and field) and %d '
-                     'random sequences; non-trivial = distinct (module, operation sequence) with >= 2 operations that contains an '
+                     'random sequences + %d parameter-sweep scenarios (rule records from boundary-rich ranges, validity and enforcement judged by the spec); non-trivial = distinct (module, operation sequence) with >= 2 operations that contains an '
                      'invalid or nil element, an identical non-empty reload, a reload old -> near-equal new, or mixes whole-set and per-resource operations'
-                     % (cover_n, len(sim), len(rnd), len(pat), len(npat), len(nrnd)))
+                     % (cover_n, len(sim), len(rnd), len(pat), len(npat), len(nrnd), len(swp)))
     c.sample(scns[len(scns) // 2])
     c.sample(sim[0] if sim else rnd[0])
     c.sample(rnd[len(rnd) // 2])
     c.sample(npat[len(npat) // 2])
+    c.sample(swp[len(swp) // 2])
     c.assumptions += ['callers pass freshly allocated rule objects on every call and never mutate them (the property\'s domain)',
                       'valid tokens use strategies the module implements (a rule that passes IsValidRule but names an unknown strategy has no controller)',
                       'outlier holds one rule per resource: whole-set lists name each resource at most once',
@@ -665,6 +956,10 @@ def check(c, tier, replay):
                       'a load that returns an error may leave its scope as it was (RejectedLoad); "identical reload reports unchanged" is demanded for '
                       'non-empty loads only; the changed flag of a non-identical load is free',
                       'system: which of several violated rules is named, and the order of GetRules(), are free (map iteration)',
+                      'parameter sweep: enum fields stay within the strategies / metric types the module implements (or are negative = invalid); memory water '
+                      'marks stay below the host\'s memory size; a request probe starts 60 s after the last traffic (longer than every statistic interval drawn); '
+                      'where the model does not determine an answer (warm-up between cold and warm, queueing behind a queued request, BBR, a rule on an associated '
+                      'resource) either answer is accepted; a breaker with threshold 0 (trips on every completion) is judged through the getters only',
                       'TLC model checking is exhaustive only for the bounded universes listed in tlc_runs']
 
 
